@@ -9,18 +9,19 @@
  * takes its eigenpairs from the cyclic Jacobi solver.  Judged are the leading components whose singular values are
  * separated (ratio <= 0.9, s_k/s_1 >= 1e-3: for scaling 0/-1 this is the whole generated spectrum).
  *
- * Tolerance: the loop stops when |t_new - t_old|^2 / (n |t_new|^2) < PCACONVERGENCE.  One power step contracts the
+ * Tolerance: the loop stops when |t_new - t_old|^2 / (n |t_new|^2) < tol = 1e-10 (documented).  One power step contracts the
  * error component along axis j by (s_j/s_k)^2 <= rho_k^2, so |t_new - t_old| >= (1-rho_k^2)/rho_k^2 * err(t_new):
  *   angle(t_k)  <= sqrt(n tol) rho_k^2 / (1 - rho_k^2),   angle(p_k) = angle(t_k) / rho_k  <= unit_k,
  *   unit_k := sqrt(n tol) / (1 - rho_k^2).
  * Deflation with a loading that is off by theta turns the next exact axis by the same theta (first order), so the
- * bound of component k is cum_k = sum_{j<=k} unit_j; eigenvalues (Rayleigh quotients) are second order.  The check
- * uses CANGLE * cum_k plus a rounding floor.
+ * bound of component k is cum_k = sum_{j<=k} unit_j; the eigenvalue bound (Rayleigh quotient of the previous loading) is
+ * derived where it is computed.  The checks use CANGLE x (cum_k + rounding floor) and CVAR x the eigenvalue bound; the
+ * evidence reports the largest deviation seen as a multiple of the (head-room free) bound.
  */
 #include "drv_util.h"
 
 #define CANGLE 100.0         /* head-room factor over the first-order bound (observed maxima are reported as multiples of the bound) */
-#define CVAR 100.0           /* head-room factor of the second-order (eigenvalue) bound */
+#define CVAR 100.0           /* head-room factor of the eigenvalue (Rayleigh quotient) bound */
 #define DEPS 2.220446049250313e-16
 /* the documented stopping threshold (property anchor: pca.h, 1e-10); deliberately NOT the library's macro, so that a
    loosened threshold in the tree under test is judged against the documented accuracy */
@@ -206,19 +207,26 @@ static void run_case(vh_ctx *c)
   cum = calloc(npc, sizeof(double)); vtol = calloc(npc, sizeof(double)); flo = calloc(npc, sizeof(double)); vb = calloc(npc, sizeof(double));
   va = calloc(npc, sizeof(ld));
   {
-    double acc = 0, prev_unit = 0, prev_rho = 1;
+    double acc = 0, prev_unit = 0;
     for (k = 0; k < npc; k++) {
       double rho = k + 1 < p ? (double)(sv[k + 1] / sv[k]) : 0.0, unit = sqrt((double)n * DOC_PCACONVERGENCE) / (1.0 - rho * rho);
       acc += unit; cum[k] = acc;
-      /* eigenvalue = t_old't_old = Rayleigh quotient of the previous loading p_old: relative error angle(p_old)^2 with
-         angle(p_old) = angle(t_old)/rho <= unit/rho (stopping rule) and also = rho * angle(t before) <= 2 rho (any start);
-         plus the leakage of the previous deflation (s_{k-1} angle(p_{k-1}))^2 / s_k^2 <= unit_{k-1}^2 */
+      /* eigenvalue = t_old't_old = Rayleigh quotient of the previous loading p_old.  Along every lower axis j (r_j = (s_j/s_k)^2)
+         its relative error is (1-r_j) e_j^2 / r_j, e_j = component of t_old: the stopping rule gives (1-r_j)^2 e_j^2 <= n tol, and
+         e_j = r_j x (component one step earlier, tan <= 4 for any start) caps it at 16 r_j: far axes with r_j ~ sqrt(n tol) make this
+         first order in sqrt(tol).  Plus the leakage of the previous deflation (s_{k-1} angle(p_{k-1}))^2 / s_k^2 <= unit_{k-1}^2 */
       {
-        double a = rho > 0 ? (unit / rho < 2 * rho ? unit / rho : 2 * rho) : 0.0;
-        vtol[k] = a * a + (k ? prev_unit * prev_unit : 0.0) + 64 * DEPS;
+        double a = 0; size_t jj;
+        for (jj = k + 1; jj < p; jj++) {
+          double rj = (double)(ev[jj] / ev[k]), t1, t2;
+          if (!(rj > 0)) continue;
+          t1 = (double)n * DOC_PCACONVERGENCE / (rj * (1.0 - rj)); t2 = 16.0 * rj;
+          a += t1 < t2 ? t1 : t2;
+        }
+        vtol[k] = a + (k ? prev_unit * prev_unit : 0.0) + 64 * DEPS;
       }
       flo[k] = 2.0 * DEPS * (xmax > (double)sv[0] ? xmax : (double)sv[0]) * sqrt((double)(n * p)) / ((double)sv[k] * (1.0 - rho));
-      prev_unit = unit; prev_rho = rho;
+      prev_unit = unit;
       va[k] = 100 * ev[k] / trace;
     }
   }
